@@ -566,9 +566,9 @@ func ruleK4(c *Ctx) *RuleResult {
 		r.fail("clientRoutinePool|ctx-cancel-pair", c.Pos(poolClose.Pos()), "clientRoutinePool", "ctxCancel is the cancel function of the context handed to every routine", "ctx and ctxCancel do not come from the same WithCancel call")
 	}
 	// routines receive the pool context
-	if add := c.Method("", "clientRoutinePool", "add"); add != nil && len(add.AnonFuncs) == 1 {
+	if add := c.Method("", "clientRoutinePool", "add"); add != nil && len(goBodies(c, add)) == 1 {
 		okArg := false
-		allInstrs(add.AnonFuncs[0], func(in ssa.Instruction) {
+		allInstrs(goBodies(c, add)[0], func(in ssa.Instruction) {
 			if call, ok := in.(*ssa.Call); ok && call.Call.IsInvoke() && call.Call.Method.Name() == "run" {
 				if f, _ := loadedField(call.Call.Args[0]); f == ctxFld {
 					okArg = true
